@@ -180,6 +180,7 @@ var ghostNotifications int
 // notification, naming the recharged rating group, goes to the URI the consumer registered (C12).
 //@ func (*Processor).NotifyRecharge [C09 C12]
 //@   entry
+//@   modifies global(&ghostNotifications), mapof(chf_context.SpecUeOf(ueId).RatingType)
 //@   assert "ue.RatingType[rg] =": [C09] verif_held(&ue.CULock)
 //@   assert "notifyUri := ue.NotifyUri": [C09] verif_held(&ue.CULock)
 //@   assert "p.SendChargingNotification(": [C12] notifyUri == old(specUeNotifyUri(ueId)) && len(notifyRequest.ReauthorizationDetails) == 1 && notifyRequest.ReauthorizationDetails[0].RatingGroup == rg
@@ -273,6 +274,7 @@ var ghostHttpWrites int
 // Exactly one response per request; 201 / 200 with a body, 204 without, otherwise a 4xx problem body.
 //@ func (*Processor).HandleChargingdataInitial [C11 C12]
 //@   entry
+//@   inline-calls (*Processor).ChargingDataCreate
 //@   requires c != nil && ghostHttpWrites >= 0 && ghostHttpWrites < 1<<40
 //@   ensures ghostHttpWrites == old(ghostHttpWrites)+1 && ghostHttpBody
 //@   ensures ghostHttpStatus == 201 || (ghostHttpStatus >= 400 && ghostHttpStatus < 500)
@@ -280,6 +282,7 @@ var ghostHttpWrites int
 
 //@ func (*Processor).HandleChargingdataUpdate [C11 C12]
 //@   entry
+//@   inline-calls (*Processor).ChargingDataUpdate
 //@   requires c != nil && ghostHttpWrites >= 0 && ghostHttpWrites < 1<<40
 //@   requires [C20] factory.SpecValidated(factory.ChfConfig)
 //@   requires [C20] chf_context.GetSelf().AbmfCfg != nil && chf_context.GetSelf().RatingCfg != nil
@@ -289,6 +292,7 @@ var ghostHttpWrites int
 
 //@ func (*Processor).HandleChargingdataRelease [C11 C12]
 //@   entry
+//@   inline-calls (*Processor).ChargingDataRelease
 //@   requires c != nil && ghostHttpWrites >= 0 && ghostHttpWrites < 1<<40
 //@   requires [C20] factory.SpecValidated(factory.ChfConfig)
 //@   requires [C20] chf_context.GetSelf().AbmfCfg != nil && chf_context.GetSelf().RatingCfg != nil
